@@ -7,6 +7,7 @@ import (
 	"fmt"
 	"os"
 	"path/filepath"
+	"runtime"
 	"strings"
 	"sync/atomic"
 	"testing"
@@ -31,6 +32,7 @@ var (
 	fCPU       = flag.Float64("verif.cpu", 60, "CPU seconds allowed per run before the watchdog stops the worker")
 	fRefCPU    = flag.Float64("verif.refcpu", 10, "CPU seconds allowed for the reference phases of a run (a call that does not terminate alone is not a C20 matter: the run is discarded)")
 	fSites     = flag.Int("verif.sites", 4096, "number of yield sites")
+	fGoSites   = flag.Int("verif.gosites", 0, "number of go statements in the instrumented packages (> 0: reference executions run under the simulator too)")
 	fTrace     = flag.Bool("verif.trace", false, "keep the full scheduler trace in replay output")
 	fDump      = flag.Bool("verif.dump", false, "print the generated specs of the selected runs and exit")
 	fMinimise  = flag.Bool("verif.minimise", false, "minimise the replay file given by -verif.replay")
@@ -50,6 +52,7 @@ type ReplayFile struct {
 	Sim        [][]Result         `json:"simulation_results,omitempty"`
 	Trace      []simrt.TraceEvent `json:"trace,omitempty"`
 	Minimised  bool               `json:"minimised"`
+	GoMaxProcs int                `json:"gomaxprocs,omitempty"`  // of the worker that recorded it (code under test may ask)
 	TraceHash  uint64             `json:"trace_hash,omitempty"`  // scheduler trace of the recorded execution
 	ResultHash uint64             `json:"result_hash,omitempty"` // hash over all simulation-phase results
 	Generate   *struct {
@@ -186,6 +189,7 @@ func TestWorker(t *testing.T) {
 	h.FontDir = setupFontDir(t, scratch, *fRepo)
 	h.Scratch = scratch
 	h.QuiescenceWait = synctest.Wait
+	h.SimulatedReference = *fGoSites > 0
 	if err := SetupSysDirs(scratch, h.Resources); err != nil {
 		t.Fatal(err)
 	}
@@ -326,7 +330,7 @@ func TestWorker(t *testing.T) {
 func writeReplay(t *testing.T, dir string, spec *RunSpec, rep *RunReport, oc *Outcome) string {
 	cp := *spec
 	cp.Sim.Replay = oc.Recorded
-	rf := ReplayFile{Property: "C20", Spec: &cp, All: rep.Violations, Ref: oc.Ref, Sim: oc.Sim, Trace: oc.Trace, ResultHash: rep.ResultHash}
+	rf := ReplayFile{Property: "C20", Spec: &cp, All: rep.Violations, Ref: oc.Ref, Sim: oc.Sim, Trace: oc.Trace, ResultHash: rep.ResultHash, GoMaxProcs: runtime.GOMAXPROCS(0)}
 	if rep.Stats != nil {
 		rf.TraceHash = rep.Stats.TraceHash
 	}
